@@ -163,6 +163,17 @@ def work_patho(ctx, k):
         check_format(ctx, b, fmt, 'patho:%s' % f.__name__)
 
 
+def work_heavy(ctx, z):
+    """one generated element at the upper end of the periodic table (where some formats stop) through every format"""
+    from basis_set_exchange import writers
+    rng = random.Random(ctx.seed * 13 + z)
+    b = gen.gen_basis(rng, nel=1, ecp_prob=0.0, ecp_only_prob=0.0, lmax=2)
+    el = next(iter(b['elements'].values()))
+    b['elements'] = {str(z): el, '8': copy.deepcopy(el)}
+    for fmt in writers.write._writer_map:
+        check_format(ctx, b, fmt, 'heavy:Z=%d' % z)
+
+
 def run(ctx):
     ctx.rule = ('for store basis sets (element subsets) and generated dictionaries x output formats: the numbers the extracted model predicts '
                 '(translated function-type gate, the writer\'s translated normalisation pipeline run by the manipulation model, then every '
@@ -182,6 +193,7 @@ def run(ctx):
     store.parallel(ctx, work_store, pairs)
     store.parallel(ctx, work_generated, [ctx.seed * 59 + i for i in range(ctx.budget(80, 4000))])
     store.parallel(ctx, work_patho, list(range(len(gen.PATHOLOGICAL) * ctx.budget(1, 20))))
+    store.parallel(ctx, work_heavy, [86, 96, 97, 98, 99, 103, 104, 118])
 
 
 def replay(ctx, rec):
